@@ -72,6 +72,9 @@ type checkOut struct {
 	FT   string `json:"ft,omitempty"` // k-th call fails once
 	FP   string `json:"fp,omitempty"` // every call from the k-th on fails
 	FC   string `json:"fc,omitempty"` // k-th call fails with context.Canceled
+	ST   string `json:"st,omitempty"` // k-th SQL statement fails once (inside the database driver, below the persister)
+	SP   string `json:"sp,omitempty"` // every SQL statement from the k-th on fails
+	SN   int    `json:"sn,omitempty"` // SQL statements of the fault-free run
 	CA   string `json:"ca,omitempty"` // request context cancelled before the k-th call (k=0: before start)
 	CMs  []int  `json:"cms,omitempty"`
 	CL   []int  `json:"cl,omitempty"` // leaked goroutines after each cancel run
@@ -237,7 +240,17 @@ func (e *checkEnv) runCheck(t testing.TB, q *ketoapi.RelationTuple, depth int, p
 // return within milliseconds.
 const slowStorage = 4 * time.Second
 
-func (e *checkEnv) transportCancel(t testing.TB, transport string, q *ketoapi.RelationTuple, depth, k int) (int, string) {
+var slowCancels int // cancellations that took the slow path; after three the point is made and each further one would cost seconds
+
+func (e *checkEnv) transportCancel(t testing.TB, transport string, q *ketoapi.RelationTuple, depth, k int) (ms int, st string) {
+	if slowCancels >= 3 {
+		return 0, "skipped"
+	}
+	defer func() {
+		if ms > 2000 {
+			slowCancels++
+		}
+	}()
 	h := check.NewHandler(handlerDeps{e.reg, e.eng})
 	rs := &runState{slowAfterCancel: true, slowFor: slowStorage}
 	ctx, cancel := context.WithCancel(withRunState(context.Background(), rs))
@@ -468,6 +481,27 @@ func runGroup(t *testing.T, in *checkIn, out *ndWriter, e *checkEnv, gi, wi int,
 					fc = append(fc, c)
 				}
 				o.FT, o.FP, o.FC = string(ft), string(fp), string(fc)
+				if d == in.RDepths[len(in.RDepths)-1] {
+					// the same sweep one layer down: the k-th SQL statement, once and from then on
+					waitNoKetoGoroutines(500 * time.Millisecond)
+					sqlCtl.begin(0, 0)
+					e.runCheck(t, q, d, nil)
+					o.SN = len(sqlCtl.end())
+					var st, sp []byte
+					for k := 1; k <= o.SN+1; k++ {
+						waitNoKetoGoroutines(200 * time.Millisecond)
+						sqlCtl.begin(k, 0)
+						c, _, _ := e.runCheck(t, q, d, nil)
+						sqlCtl.end()
+						st = append(st, c)
+						waitNoKetoGoroutines(200 * time.Millisecond)
+						sqlCtl.beginPersistent(k)
+						c, _, _ = e.runCheck(t, q, d, nil)
+						sqlCtl.end()
+						sp = append(sp, c)
+					}
+					o.ST, o.SP = string(st), string(sp)
+				}
 				out.write(o)
 			}
 		}
@@ -497,9 +531,17 @@ func runGroup(t *testing.T, in *checkIn, out *ndWriter, e *checkEnv, gi, wi int,
 						if k == 0 {
 							cancel()
 						} else {
-							rs.cancelAt, rs.cancelFn = k, cancel
+							// from the moment of the cancellation the database is slow for statements that do not carry
+							// the request's context (8 s; see sqlSlow) - unless leaks are already established
+							rs.cancelAt, rs.cancelFn = k, func() {
+								if leaksSeen < 3 {
+									sqlSlowFor.Store(int64(8 * time.Second))
+								}
+								cancel()
+							}
 						}
 					})
+					sqlSlowFor.Store(0)
 					if c == 'H' {
 						o.Hang++
 					}
